@@ -50,7 +50,7 @@ def run(ctx):
             break
     # targeted: the only unique record of some content sits in a backup whose manifest becomes unreadable; a later backup holds an extern
     # record for it; then the content shows up under a new path - it must be stored again, an extern record vouches for nothing
-    if not ctx.violations:
+    if not ctx.has_failing_input():
         with slevel.Sandbox("c02") as sb:
             H = runs.History(ctx, sb, rng, "C02", 3, 6, identity_changes=True)
             H.advance = lambda: None
@@ -76,9 +76,35 @@ def run(ctx):
                 if ctx.violations:
                     break
             H.report_diffs("backup-run")
+    # targeted: a file that was EMPTY in the previous backup of the group is filled in place with its mtime preserved (pinned build
+    # timestamps, rsync -t --inplace): an empty file's record stores nothing, so the record must not be reused for the filled file
+    if not ctx.has_failing_input():
+        with slevel.Sandbox("c02") as sb:
+            H = runs.History(ctx, sb, rng, "C02", 3, 6, identity_changes=False)
+            H.advance = lambda: None
+            H.now += 3600
+            H.w.populate(nfiles=4)
+            p = os.path.join(H.w.src, H.w.items[0], "report.dat")
+            H.w.write_file(p, b"")
+            H.now += 61
+            H.run(nedits=0)
+            st = os.lstat(p)
+            with open(p, "r+b") as f:
+                f.write(b"filled in place, the mtime is pinned\n" * 2)
+            H.w.remember(open(p, "rb").read())
+            os.utime(p, ns=(st.st_atime_ns, st.st_mtime_ns))
+            ctx.count("targeted.empty-file-filled-with-preserved-mtime")
+            for _ in range(2):
+                H.now += 61
+                H.run(nedits=0)
+                if ctx.violations:
+                    break
+            if not ctx.violations:
+                H.restore_all()
+            H.report_diffs("backup-run")
     # content that changes between the two read passes of a new file, with a copy of the old content archived later in the same run: the
     # hash of the first pass must not become something an extern line can refer to
-    if not ctx.violations:
+    if not ctx.has_failing_input():
         from vlib import dynrun
 
         def focus(size, where, previous, rules):
